@@ -10,10 +10,10 @@ export CARGO_NET_OFFLINE=true
 if [ ! -d $WT ]; then git -C /repo worktree add -q --detach $WT HEAD; fi
 cd $WT && git checkout -q --detach $(git -C /repo rev-parse HEAD) 2>/dev/null; git checkout -q -- . ; rm -f tests/seeded_demo.rs
 cp "$D/demo.rs" tests/seeded_demo.rs
-base_demo=$(timeout 3000 cargo test --offline -j ${JOBS:-8} $DEMOFLAGS --test seeded_demo 2>&1 | grep -E "^test result" | head -1)
+base_demo=$(timeout 3000 cargo test --offline -j ${JOBS:-8} $DEMOFLAGS --test seeded_demo 2>&1 | grep -E "^test result:" | head -1)
 git apply "$D/patch.diff" || { echo '{"ok": false, "why": "patch does not apply"}'; exit 1; }
 mut_out=$(timeout 3000 cargo test --offline -j ${JOBS:-8} $DEMOFLAGS --test seeded_demo 2>&1)
-mut_demo=$(echo "$mut_out" | grep -E "^test result" | head -1)
+mut_demo=$(echo "$mut_out" | grep -E "^test result:" | head -1)
 [ -z "$mut_demo" ] && mut_demo=$(echo "$mut_out" | grep -E "^error(\[|:)" | head -1)
 rm -f tests/seeded_demo.rs
 failed=$(timeout 3000 cargo test --offline --workspace --no-fail-fast -j ${JOBS:-8} 2>&1 | grep -E "^test .* \.\.\. FAILED" | sed 's/ \.\.\. FAILED//; s/^test //' | sort | tr '\n' ' ')
